@@ -13,7 +13,8 @@ from . import common
 from .common import call, RAISED
 
 META = {
-    'rule': ('cases: all tables <= 3x3 (quick: all <= 2x3/3x2 plus a sample of 3x3) incl. all-blank rows/'
+    'rule': ('cases: tables with 9-11, 99-101, 999-1001, 1023-1025 members on one axis and numbered labels '
+             '(counts in headers are read by a digits-only reader), and all tables <= 3x3 (quick: all <= 2x3/3x2 plus a sample of 3x3) incl. all-blank rows/'
              'columns and single row/column, plus random tables up to 6x6, x label alphabets (plain, '
              'ASCII punctuation, the delimiters of the other formats | # , ; " \' ! . X 0 1 tab, digits, '
              'inner whitespace, Latin-1, CJK, combining marks; for csv and python-literal also commas, '
@@ -379,6 +380,22 @@ ALPHABETS = {
 }
 
 
+NUMBERED = ([f'o{i}' for i in range(1400)], [f'p{j}' for j in range(1400)])
+
+
+def sized_tables(tier, seed):
+    """Tables whose member counts cross the digit-count and 'thousands' boundaries (9/10/11, 99/100/101,
+    999/1000/1001, 1023/1024/1025): counts in headers, column widths, chunked writers."""
+    rng = random.Random(f'{seed}/c12sized')
+    big = [(1000, 2), (2, 1001)] if tier == 'quick' else \
+        [(999, 2), (1000, 2), (1001, 3), (2, 999), (2, 1000), (3, 1024), (1025, 2), (1234, 3), (1000, 1000)]
+    small = [(10, 3), (3, 11), (100, 2), (2, 101)] if tier == 'quick' else \
+        [(9, 2), (10, 3), (11, 2), (2, 9), (3, 10), (2, 11), (99, 2), (100, 3), (101, 2), (2, 99), (3, 100), (2, 101)]
+    for n, m in small + big:
+        d = rng.choice([.1, .5, .9]) if n * m < 10**5 else .002
+        yield n, m, gen.rnd_rows(rng, n, m, d)
+
+
 def tables_for(tier, seed):
     sizes = [(n, m) for n in (1, 2, 3) for m in (1, 2, 3)]
     rng = random.Random(f'{seed}/c12tables')
@@ -436,6 +453,8 @@ def cases(tier, seed, spec):
                 continue
             yield {'alphabet': a, 'n': n, 'm': m, 'rows': rows}
         k += 1
+    for n, m, rows in sized_tables(tier, seed):
+        yield {'alphabet': 'numbered', 'n': n, 'm': m, 'rows': rows}
 
 
 ENCODINGS = ['utf-8', 'utf-16', 'latin-1']
@@ -451,7 +470,7 @@ def run_case(concepts, case, spec):
         return run_real(concepts, case, spec)
     C, D = concepts.Context, concepts.Definition
     rng = random.Random(f"{spec['seed']}/c12/{core.dumps(case)}")
-    o, p = ALPHABETS[case['alphabet']]
+    o, p = NUMBERED if case['alphabet'] == 'numbered' else ALPHABETS[case['alphabet']]
     n, m, rows = case['n'], case['m'], case['rows']
     objects, properties = o[:n], p[:m]
     bools = [tuple(bool(r >> j & 1) for j in range(m)) for r in rows]
